@@ -281,8 +281,8 @@ func buildRestApiWithParameters(ctx *parser.MethodDeclarationContext) {
 		for _, modifier := range modifiers {
 			childType := reflect.TypeOf(modifier.GetChild(0))
 			if childType.String() == "*parser.AnnotationContext" {
-				qualifiedName := modifier.GetChild(0).(*parser.AnnotationContext).QualifiedName().GetText()
-				if qualifiedName == "RequestBody" {
+				annotationCtx := modifier.GetChild(0).(*parser.AnnotationContext)
+				if annotationCtx.QualifiedName() != nil && annotationCtx.QualifiedName().GetText() == "RequestBody" {
 					hasRequestBody = true
 				}
 			}
